@@ -213,6 +213,26 @@ def run(ctx: Ctx, tier: str) -> Result:
         else:
             res.fail(Finding("C16.PIPE", gf.qname, "<eval_watch>", gf.loc(), "get_field evaluates the field %d times through eval_watch (expected once)" % len(ew)))
 
+    # once the expression has a value, the text of the field is the text of that value - also when the value cannot be
+    # recorded any more (variable budget used up): only the watch result says `not recorded`
+    ewf_ = p.func("deep.processor.context.action_context.ActionContext.eval_watch")
+    pvs_ = [n for n in t.nodes_in(ewf_, ast.Assign) if isinstance(n.value, ast.Call) and any(f_.name == "process_variable" for f_ in t.resolve_call(n.value, ewf_).repo)
+            and isinstance(n.targets[0], ast.Tuple) and len(n.targets[0].elts) == 2]
+    if len(pvs_) == 1:
+        txt_name = norm(pvs_[0].targets[0].elts[1])
+        after = [r for r in t.nodes_in(ewf_, ast.Return) if r.lineno > pvs_[0].lineno and
+                 not any(isinstance(a_, ast.ExceptHandler) for a_ in p.ancestors(r, stop=ewf_.node))]
+        for r in after:
+            third = r.value.elts[2] if isinstance(r.value, ast.Tuple) and len(r.value.elts) == 3 else None
+            if third is not None and norm(third) == txt_name:
+                res.ok("C16.PIPE", {"field text is the value's text": ewf_.loc(r)})
+            else:
+                res.fail(Finding("C16.PIPE", ewf_.qname, r, ewf_.loc(r), "after the expression was evaluated the text handed back for the field is `%s`, not the text of its value (`%s`): "
+                                 "when the value cannot be recorded (variable limit) the log line shows that remark in place of the value" % (
+                                     norm(third)[:50] if third is not None else norm(r.value)[:50], txt_name)))
+        res.floor("returns of eval_watch after the value was processed", len(after), 2)
+    else:
+        res.fail(Finding("C16.PIPE", ewf_.qname, "<variable_id, log_str = process_variable(watch, result)>", ewf_.loc(), "eval_watch does not take the text of the value from process_variable"))
     # the text a field is replaced with is the string form of the value, whether or not the value was collected before
     pv_ = p.func("deep.processor.variable_set_processor.VariableSetProcessor.process_variable")
     rets_ = [r for r in t.nodes_in(pv_, ast.Return) if r.value is not None]
